@@ -83,6 +83,11 @@ def mutate(rng, fr, prec=None):
             c['cells'][ri] = (v + 1) if c['fam'] not in ('uint8', 'int8') else (v + 1) % 100
         elif t == 'real':
             c['cells'][ri] = v + 1.0
+            if c['fam'] == 'float32':
+                # the change must survive the column's precision (1e10 + 1 is 1e10 in float32)
+                c['cells'][ri] = float(np.float32(v + max(1.0, abs(v) * 0.5)))
+                if float(np.float32(c['cells'][ri])) == float(np.float32(v)):
+                    return g, 'none', None
         elif t == 'bool':
             c['cells'][ri] = not v
         elif t in ('string', 'other'):
